@@ -139,6 +139,8 @@ StructClauses(f, c, scriptsConfigured, evs) ==
                /\ on[3] \in {"data.tar.gz", "data.tar.xz", "data.tar.zst", "data.tar"}
                /\ (Len(on) = 4 => HasPrefix(on[4], "_gpg")))
           THEN {"C04.deb_outer_order"} ELSE {})
+         \* the signature member is there iff signing is configured
+         \cup (IF Len(on) \in {3, 4} /\ (Len(on) = 4) # c.sig.deb_key THEN {"C04.deb_signature_member_iff_signed"} ELSE {})
          \cup (IF Len(oe) >= 1 /\ oe[1].text # "2.0\n" THEN {"C04.debian_binary"} ELSE {})
          \cup (IF Len(on) >= 3 /\ on[3] # DebDataName(c.deb.compression) THEN {"C04.deb_data_member_name"} ELSE {})
          \cup (IF Len(oe) >= 3 /\ oe[3].comp # DebComp(c.deb.compression) THEN {"C04.deb_data_compression"} ELSE {})
@@ -153,6 +155,7 @@ StructClauses(f, c, scriptsConfigured, evs) ==
          \cup TarNameClauses(f, TarSeq(evs, "control"), TRUE, {})
     [] f = "apk" ->
          (IF ~(on = <<"control", "data">> \/ on = <<"signature", "control", "data">>) THEN {"C04.apk_segments"} ELSE {})
+         \cup (IF on # <<>> /\ (on[1] = "signature") # c.sig.apk_key THEN {"C04.apk_signature_segment_iff_signed"} ELSE {})
          \cup (IF \E i \in 1..Len(oe) : oe[i].name \in {"control", "signature"} /\ oe[i].eoa THEN {"C04.apk_cut_segment"} ELSE {})
          \cup (IF \E i \in 1..Len(oe) : oe[i].name = "data" /\ ~oe[i].eoa THEN {"C04.apk_full_data_tar"} ELSE {})
          \cup (IF \E i \in 1..Len(oe) : oe[i].name = "control" /\ oe[i].first # ".PKGINFO" THEN {"C04.apk_pkginfo_first"} ELSE {})
